@@ -623,15 +623,8 @@ def extract(g, X):
     types = X.strip_comments(X.read("pdf/src/object/types.rs"))
     objm = X.strip_comments(X.read("pdf/src/object/mod.rs"))
 
-    def sername():
-        b = fn_text(prim, r"pub\s+fn\s+serialize_name\s*\(", "")
-        m = re.search(r"((?:'(?:\\.|[^'\\])'\s*\|\s*)*'(?:\\.|[^'\\])')\s*=>\s*write!\(out,\s*r\"\\\"\)", b)
-        esc = [char_lit(t) for t in m.group(1).split("|")]
-        mx = re.search(r"c\s+if\s+c\s*>\s*('(?:\\.|[^'\\])')\s*=>\s*panic!", b)
-        if not re.search(r'write!\(out,\s*"/"\)', b):
-            raise ValueError("no '/' written")
-        return clist(str(x) for x in esc), str(char_lit(mx.group(1)))
-    g.attempt([("name_escaped", "list N"), ("name_ascii_max", "N")], "primitive.rs:serialize_name", sername)
+    # serialize_name's tables (name_ser_raw_lo/hi/except) are generated by gen/extract_syn.py
+
 
     def serstr():
         impl = prim[prim.index("impl PdfString {"):]
